@@ -22,6 +22,8 @@ def gen_cases(ctx, n_streams):
         [bytes.fromhex('000700'), bytes.fromhex('0000042A01CA'), bytes.fromhex('FE000800000001'), bytes.fromhex('09'), bytes.fromhex('0009')],
         [fc.mbap(1, 1, b'\x05') + big[:252], big[252:] + fc.mbap(3, 3, b'\x01\x02')],
         [fc.mbap(1, 1, b'') + big[:253], big[253:]],
+        [fc.mbap(1, 1, b'') + big[:253], big[253:254], big[254:]],
+        [fc.mbap(1, 1, b'') + big[:100], big[100:253], big[253:] + fc.mbap(5, 5, b'\x09')],
         [b'\x00' * 260, b'\x00' * 7],
         [fc.mbap(7, 1, b'\x03', proto=5)],
         [fc.mbap(7, 1, b'\x03', length=0)],
@@ -259,6 +261,8 @@ def run(ctx):
         bump('frames:' + ('0' if nfr == 0 else '1' if nfr == 1 else '2-4' if nfr <= 4 else '5+'))
         if stats.get('compactions', 0) > 0:
             bump('buffer:compacted')
+        if 0 < stats.get('min_compaction', 0) <= 14:
+            bump('buffer:full_with_14_consumed')          # the fewest the MBAP parser can have consumed when it is stuck at end == capacity: a 7-byte frame + a header
         if stats.get('resets', 0) > 0:
             bump('buffer:reset_when_empty')
         if sum(len(x) for x in c[3]) > fc.CAP:
@@ -271,7 +275,7 @@ def run(ctx):
             bump('client:ok_after_dead_connection')
     if not ctx.replay:
         need = ['ending:UnknownProtocolId', 'ending:FrameLengthTooBig', 'ending:MbapLengthZero', 'ending:Io(UnexpectedEof)', 'ending:Pending',
-                'buffer:compacted', 'buffer:reset_when_empty', 'schedule:byte_per_byte', 'schedule:buffer_edge', 'stream:longer_than_buffer',
+                'buffer:compacted', 'buffer:full_with_14_consumed', 'buffer:reset_when_empty', 'schedule:byte_per_byte', 'schedule:buffer_edge', 'stream:longer_than_buffer',
                 'client:ok_after_dead_connection', 'mode:resume']
         missing = [k for k in need if classes.get(k, 0) < 3]
         ctx.oblige('generator-reaches-expected-classes', not missing, 'missing: ' + ','.join(missing))
